@@ -51,7 +51,7 @@ class _BaseITML(MahalanobisMixin):
       # (a copy: zero bounds are replaced below, which must not write into
       # the array of the caller)
       bounds = check_array(bounds, allow_nd=False, ensure_min_samples=0,
-                           ensure_2d=False, copy=True)
+                           ensure_2d=False, copy=True, dtype=float)
       bounds = bounds.ravel()
       if bounds.size != 2:
         raise ValueError("`bounds` should be an array-like of two elements.")
